@@ -3,6 +3,7 @@ package main
 // Smaller structural rules of the coroutine layer.
 
 import (
+	"strconv"
 	"fmt"
 	"go/ast"
 	"go/token"
@@ -249,57 +250,103 @@ func (c *Ctx) derivedIds(injective bool) {
 		return
 	}
 	info := m.Pk.TypesInfo
+	// every Id of a store command that is formatted by the server (directly or through a
+	// single-expression helper, which the provenance inlines): keyed by the constant prefix of the
+	// format, so that renaming or inlining the helper changes nothing
+	seen := map[string]bool{}
 	n := 0
 	for _, name := range m.Order {
 		cf := m.Funcs[name]
-		sig := info.Defs[cf.Decl.Name].(*types.Func).Type().(*types.Signature)
-		if sig.Results().Len() != 1 || !types.Identical(sig.Results().At(0).Type(), types.Typ[types.String]) || sig.Params().Len() == 0 {
-			continue
-		}
-		allStr := true
-		for i := 0; i < sig.Params().Len(); i++ {
-			if !types.Identical(sig.Params().At(i).Type(), types.Typ[types.String]) {
-				allStr = false
+		ast.Inspect(cf.Decl.Body, func(nd ast.Node) bool {
+			cl, ok := nd.(*ast.CompositeLit)
+			if !ok {
+				return true
 			}
-		}
-		if !allStr || len(cf.Decl.Body.List) != 1 {
-			continue
-		}
-		rs, ok := cf.Decl.Body.List[0].(*ast.ReturnStmt)
-		if !ok || len(rs.Results) != 1 {
-			continue
-		}
-		call, ok := ast.Unparen(rs.Results[0]).(*ast.CallExpr)
-		if !ok {
-			continue
-		}
-		fn, ok := calleeOf(info, call).(*types.Func)
-		if !ok || fn.Pkg() == nil || fn.Pkg().Path() != "fmt" || fn.Name() != "Sprintf" {
-			continue
-		}
-		format, ok := constString(info, call.Args[0])
-		if !ok {
-			c.und("derived-id/"+name, call.Pos(), "non-constant format")
-			continue
-		}
-		n++
-		nS := strings.Count(format, "%s")
-		other := strings.Count(format, "%") - nS
-		// every parameter is used exactly once, raw
-		rawOK := len(call.Args)-1 == sig.Params().Len() && other == 0
-		for i, a := range call.Args[1:] {
-			id, ok := ast.Unparen(a).(*ast.Ident)
-			if !ok || i >= sig.Params().Len() || info.Uses[id] != sig.Params().At(i) {
-				rawOK = false
+			tv, ok := info.Types[cl]
+			if !ok || namedPkgPath(tv.Type) != pkgTAio || !strings.HasSuffix(namedName(tv.Type), "Command") {
+				return true
 			}
-		}
-		c.check(rawOK, "derived-id/"+name+"/embeds-raw", call.Pos(), "embeds each client id unaltered with %s: "+format, "derived id "+name+" does not embed each of its operands once, unaltered (%s): "+format)
-		if !injective {
-			continue
-		}
-		c.check(nS <= 1, "derived-id/"+name+"/injective", call.Pos(), "one free-text operand after a constant prefix: injective",
-			fmt.Sprintf("derived id %q joins %d free-text operands with a separator that may occur inside them: distinct registrations can share an id", format, nS))
+			for _, el := range cl.Elts {
+				kv, ok := el.(*ast.KeyValueExpr)
+				if !ok || exprString(kv.Key) != "Id" {
+					continue
+				}
+				pv := cf.Env.prov(kv.Value)
+				if !strings.HasPrefix(pv, "fmt.Sprintf(") {
+					continue
+				}
+				args := splitTopLevel(pv[len("fmt.Sprintf(") : len(pv)-1])
+				if len(args) == 0 || !strings.HasPrefix(args[0], `"`) {
+					c.und("derived-id/"+namedName(tv.Type), kv.Pos(), "non-constant format: "+pv)
+					continue
+				}
+				format, err := strconv.Unquote(args[0])
+				if err != nil {
+					c.und("derived-id/"+namedName(tv.Type), kv.Pos(), "format: "+args[0])
+					continue
+				}
+				prefix := format
+				if k := strings.Index(prefix, "%"); k >= 0 {
+					prefix = prefix[:k]
+				}
+				id := strings.Trim(prefix, "_:/-. ")
+				if id == "" {
+					id = "noprefix"
+				}
+				if seen[id+"|"+pv] {
+					continue
+				}
+				first := !seen[id]
+				seen[id], seen[id+"|"+pv] = true, true
+				if first {
+					n++
+				}
+				nS := strings.Count(format, "%s")
+				other := strings.Count(format, "%") - nS
+				rawOK := len(args)-1 == nS && other == 0
+				for _, a := range args[1:] {
+					// an operand is embedded unaltered when it is a plain path (no call, no operator)
+					if strings.ContainsAny(a, "() +") {
+						rawOK = false
+					}
+				}
+				c.check(rawOK, "derived-id/"+id+"/embeds-raw", kv.Pos(), "embeds each client id unaltered with %s: "+format, "derived id "+pv+" does not embed each of its operands once, unaltered (%s)")
+				if !injective {
+					continue
+				}
+				c.check(nS <= 1, "derived-id/"+id+"/injective", kv.Pos(), "one free-text operand after a constant prefix: injective",
+					fmt.Sprintf("derived id %q joins %d free-text operands with a separator that may occur inside them: distinct registrations can share an id", format, nS))
+			}
+			return true
+		})
 	}
-	c.count("derived_id_functions", n)
-	c.floor("derived-id functions", n, 3)
+	c.count("derived_id_formats", n)
+	c.floor("derived-id formats", n, 3)
+}
+
+// splitTopLevel splits a provenance argument list at the commas outside quotes and brackets.
+func splitTopLevel(s string) []string {
+	var out []string
+	depth, inq, start := 0, false, 0
+	for i := 0; i < len(s); i++ {
+		ch := s[i]
+		switch {
+		case inq:
+			if ch == '\\' {
+				i++
+			} else if ch == '"' {
+				inq = false
+			}
+		case ch == '"':
+			inq = true
+		case ch == '(' || ch == '[' || ch == '{':
+			depth++
+		case ch == ')' || ch == ']' || ch == '}':
+			depth--
+		case ch == ',' && depth == 0:
+			out = append(out, s[start:i])
+			start = i + 1
+		}
+	}
+	return append(out, s[start:])
 }
